@@ -1548,8 +1548,12 @@ class WassersteinDistanceNewton(VariationalWassersteinDistance):
             self.darcy_init.copy(), rhs.copy(), solution_i
         )
 
-        # Initialize distance in case below iteration fails
-        new_distance = 0
+        # Initialize distance in case below iteration fails, and keep track of the last
+        # valid iterate (solution and its distance)
+        new_distance = self.l1_dissipation(solution_i[self.flux_slice])
+        last_valid_iterate = (solution_i.copy(), new_distance)
+        converged = False
+        iter = 0
 
         # Initialize container for storing the convergence history
         convergence_history = {
@@ -1617,6 +1621,7 @@ class WassersteinDistanceNewton(VariationalWassersteinDistance):
                 # Update discrete W1 distance
                 flux = solution_i[self.flux_slice]
                 new_distance = self.l1_dissipation(flux)
+                last_valid_iterate = (solution_i.copy(), new_distance)
 
                 # Update increment
                 increment = solution_i - old_solution_i
@@ -1685,9 +1690,12 @@ class WassersteinDistanceNewton(VariationalWassersteinDistance):
                             < tol_distance
                         )
                     ):
+                        converged = True
                         break
             except Exception:
                 warnings.warn("Newton iteration abruptly stopped due to some error.")
+                # Fall back to the last valid iterate
+                solution_i, new_distance = last_valid_iterate
                 break
 
         # Summarize profiling (time in seconds, memory in GB)
@@ -1696,7 +1704,7 @@ class WassersteinDistanceNewton(VariationalWassersteinDistance):
 
         # Define performance metric
         info = {
-            "converged": iter < num_iter - 1,
+            "converged": converged,
             "number_iterations": iter,
             "convergence_history": convergence_history,
             "timings": total_timings,
@@ -1867,6 +1875,11 @@ class WassersteinDistanceBregman(VariationalWassersteinDistance):
         old_force = flux - old_aux_flux
         old_distance = self.l1_dissipation(flux)
 
+        # Keep track of the last valid iterate (flux and its distance)
+        new_distance = old_distance
+        last_valid_iterate = (flux.copy(), new_distance)
+        converged = False
+
         iter = 0
 
         # Control the update of the Bregman weight
@@ -1954,6 +1967,7 @@ class WassersteinDistanceBregman(VariationalWassersteinDistance):
 
                 # Update distance
                 new_distance = self.l1_dissipation(flux)
+                last_valid_iterate = (flux.copy(), new_distance)
 
                 # Catch nan values
                 if np.isnan(new_distance):
@@ -2047,6 +2061,7 @@ class WassersteinDistanceBregman(VariationalWassersteinDistance):
                             < tol_residual
                         )
                     ):
+                        converged = True
                         break
 
                 # Update Bregman variables
@@ -2056,6 +2071,8 @@ class WassersteinDistanceBregman(VariationalWassersteinDistance):
 
             except Exception:
                 warnings.warn("Bregman iteration abruptly stopped due to some error.")
+                # Fall back to the last valid iterate
+                flux, new_distance = last_valid_iterate
                 break
 
         # Solve for the pressure by solving a single Newton iteration
@@ -2074,7 +2091,7 @@ class WassersteinDistanceBregman(VariationalWassersteinDistance):
 
         # Define performance metric
         info = {
-            "converged": iter < num_iter - 1,
+            "converged": converged,
             "number_iterations": iter,
             "convergence_history": convergence_history,
             "timings": total_timings,
